@@ -1614,6 +1614,21 @@ func (w *vpWorld) generate(o vpGenOpts) {
 			case 1: // forward edge to a later registration's plain type: may close a cycle
 				slot := rng.Intn(len(vpSlots))
 				reg.deps = append(reg.deps, vpDep{typ: slotType(slot)})
+			case 2, 3: // a registered type under a key nobody registered (the same type is provided under other identities)
+				if len(idents) > 0 {
+					t := idents[rng.Intn(len(idents))]
+					reg.deps = append(reg.deps, vpDep{typ: t.typ, name: "nobody"})
+					if rng.Intn(2) == 0 && t.group == "" { // and, first, the identity that does exist
+						reg.deps = append([]vpDep{{typ: t.typ, name: t.name}}, reg.deps...)
+					}
+				}
+			case 4: // an unkeyed request for a type that is only registered under keys
+				if len(idents) > 0 {
+					t := idents[rng.Intn(len(idents))]
+					if t.name != "" {
+						reg.deps = append(reg.deps, vpDep{typ: t.typ})
+					}
+				}
 			}
 		}
 		for _, d := range reg.deps {
